@@ -21,13 +21,13 @@ import (
 	cmtproto "github.com/cometbft/cometbft/proto/tendermint/types"
 	cmttypes "github.com/cometbft/cometbft/types"
 	sdk "github.com/cosmos/cosmos-sdk/types"
-	"github.com/ethereum/go-ethereum/common"
 	"github.com/cosmos/gogoproto/proto"
+	"github.com/ethereum/go-ethereum/common"
+	"github.com/goatnetwork/goat/verifsim/simrt"
 	bitcointypes "github.com/goatnetwork/goat/x/bitcoin/types"
 	goatmodtypes "github.com/goatnetwork/goat/x/goat/types"
 	lockingtypes "github.com/goatnetwork/goat/x/locking/types"
 	relayertypes "github.com/goatnetwork/goat/x/relayer/types"
-	"github.com/goatnetwork/goat/verifsim/simrt"
 )
 
 type admissionArgs struct {
